@@ -43,6 +43,8 @@ class EngineListener:
         self.in_shave_bound = 0
         self.pass_execs = 0
         self.ref_stack = {}  # level -> (box, flags) saved at push time
+        self.pending_alt = None  # message, while an alternative restored by backtrack() awaits its propagation pass
+        self.pending_queue = None
         self.self_allowed = None
         self.orders = []  # popped sequence of the current pass
         self.order_hashes = set()
@@ -220,6 +222,12 @@ class EngineListener:
         self.last_status = None
         self.exec_premise_ok = True
         flags_entry = ne[top].copy()
+        if self.pending_alt is not None:
+            lost = [int(k) for k in np.flatnonzero(self.pending_queue) if k < len(queue) and not queue[k]]
+            if lost and "C09" in self.checks:
+                self.viol("C09", "alternative-announcement-dropped",
+                          f"the pass that follows a backtrack starts without constraints {lost} which the restored alternative had queued")
+            self.pending_alt = None
         status = orig(*args)
         self.close_exec()
         if self.gfp_compare and "C08" in self.checks and self.all_exact_types and not self.aliased and self.P:
@@ -485,6 +493,9 @@ class EngineListener:
 
     # ----------------------------------------------------------------------------------------------- branching
     def around_var_h(self, i, f, args):
+        if self.pending_alt is not None and "C09" in self.checks:
+            self.viol("C09", "alternative-announcement-dropped", self.pending_alt)
+            self.pending_alt = None
         params, decision, stack, top_arr = args
         dom = f(*args)
         top = int(top_arr[0])
@@ -568,6 +579,19 @@ class EngineListener:
                     self.probes["backtrack_checked"] += 1
                     if not all(flags):
                         self.probes["backtrack_with_disabled_flags"] += 1
+        if "C09" in self.checks and who == "solver":
+            if self.pending_alt is not None:
+                self.viol("C09", "alternative-announcement-dropped", self.pending_alt)
+            # the alternative just restored announced its bounds by queueing watchers: the next thing the engine does
+            # with this state must be a propagation pass that starts from (at least) that queue
+            self.pending_alt = None
+            if ok and top1 == top0 - 1 and np.any(queue):
+                self.pending_alt = (
+                    f"the alternative restored at level {top1} queued constraints {np.flatnonzero(queue).tolist()} for the "
+                    f"bounds it moved, but the state was used (solution returned / branched on / popped) before any "
+                    f"propagation pass consumed that queue"
+                )
+                self.pending_queue = np.array(queue, copy=True)
         return ok
 
 
